@@ -183,6 +183,7 @@ type brokerCore struct {
 	cbs         map[int]*service.OnPublishFunc
 	cbmu        sync.Mutex
 	cblog       map[int][]string
+	repub       map[int][]byte // republishing callbacks (`srvsubrepub`): callback -> the topic it republishes to
 }
 
 func init() {
@@ -208,6 +209,7 @@ func (b *brokerCore) reset() {
 	b.clients = map[int]*rawClient{}
 	b.cbs = map[int]*service.OnPublishFunc{}
 	b.cblog = map[int][]string{}
+	b.repub = map[int][]byte{}
 	message.VerifResetPacketID(0)
 	if b.ring == 0 {
 		vb, err := service.VerifNewBuffer(0) // the default size, which Server.BufferSize = 0 selects
@@ -474,7 +476,17 @@ func (b *brokerCore) cb(id int) *service.OnPublishFunc {
 			id: 0 /* depends on fan-out order */, payload: append([]byte{}, m.Payload()...)}
 		b.cbmu.Lock()
 		b.cblog[id] = append(b.cblog[id], p.String())
+		target, re := b.repub[id]
 		b.cbmu.Unlock()
+		if re {
+			// a republishing callback (`srvsubrepub`): hands the message on through Server.Publish from
+			// inside the callback, i.e. in the middle of the fan-out that called it (a bridge)
+			nm := message.NewPublishMessage()
+			nm.SetTopic(target)
+			nm.SetQoS(0)
+			nm.SetPayload(p.payload)
+			b.svr.Publish(nm)
+		}
 		return nil
 	}
 	b.cbs[id] = &f
@@ -671,6 +683,8 @@ func (b *brokerCore) handle(ws []string) string {
 		c.conn.Close()
 		c.waitUntil(func() bool { return c.eof }, brokerWait)
 		return b.collect(id, false, nil)
+	case "unsubrace":
+		return b.unsubRace(ws)
 	case "close":
 		id := atoi(ws[1])
 		c, ok := b.clients[id]
@@ -696,6 +710,13 @@ func (b *brokerCore) handle(ws []string) string {
 		err := b.svr.Publish(m)
 		return b.collect(-1, err != nil, nil)
 	case "srvsub":
+		err := b.svr.Subscribe(string(unhex(ws[2])), byte(atoi(ws[3])), b.cb(atoi(ws[1])))
+		return b.collect(-1, err != nil, nil)
+	case "srvsubrepub":
+		// srvsubrepub <cb> <filter> <qos> <target>
+		b.cbmu.Lock()
+		b.repub[atoi(ws[1])] = unhex(ws[4])
+		b.cbmu.Unlock()
 		err := b.svr.Subscribe(string(unhex(ws[2])), byte(atoi(ws[3])), b.cb(atoi(ws[1])))
 		return b.collect(-1, err != nil, nil)
 	case "srvunsub":
@@ -956,4 +977,41 @@ func (b *brokerCore) race(ws []string) string {
 		b.rawWriteWhile(a, unhex(ws[2]), groups, sendP)
 	}
 	return b.render(groups, false)
+}
+
+// unsubRace: `unsubrace <a> <p> <pktid> <f1,f2,…,fn> <topic> <payload>` - connection a sends ONE
+// UNSUBSCRIBE for all the filters (which it holds: the generator has it subscribe them first); the
+// moment a's client has RECEIVED the UNSUBACK - no barrier in between - connection p publishes
+// (QoS 0) on a topic that matches the LAST filter of the list.  "From that acknowledgement on" the
+// filters no longer take effect (C07): a must not get the message.  A broker that acknowledges
+// before it has removed the filters is still walking the list when the PUBLISH arrives (the window
+// grows with the length of the list).  Observed like two events on one line: p's barrier first (its
+// PUBLISH has then been fanned out), then a's, then everybody else's.
+func (b *brokerCore) unsubRace(ws []string) string {
+	if len(ws) != 7 {
+		return "bad-op"
+	}
+	a, okA := b.clients[atoi(ws[1])]
+	p, okP := b.clients[atoi(ws[2])]
+	if !okA || !okP || a == p || a.dead || p.dead || !a.accepted || !p.accepted || p.mid() || a.mid() {
+		return "-"
+	}
+	var ts [][]byte
+	for _, e := range strings.Split(ws[4], ",") {
+		ts = append(ts, unhex(e))
+	}
+	want := fmt.Sprintf("UNSUBACK %d", atoi(ws[3]))
+	pub := wPub{qos: 0, topic: unhex(ws[5]), payload: unhex(ws[6])}.encode()
+	a.write(wUnsubscribe(atoi(ws[3]), ts))
+	a.waitUntil(func() bool {
+		for _, it := range a.items {
+			if it == want {
+				return true
+			}
+		}
+		return a.eof
+	}, brokerWait)
+	p.write(pub)
+	b.barrier(p)
+	return b.collect(a.id, false, nil)
 }
